@@ -143,9 +143,11 @@ class Real:
             viol += self.pop_one(None)
         elif name == "Raise":
             k = args[0]
+            kind = {"RuntimeError": RuntimeError, "KeyboardInterrupt": KeyboardInterrupt,
+                    "SystemExit": SystemExit}[args[1] if len(args) > 1 else "RuntimeError"]
             try:
-                raise RuntimeError("injected")
-            except RuntimeError as e:
+                raise kind("injected")
+            except BaseException as e:
                 exc = e
             for _ in range(k):
                 viol += self.pop_one(exc)
